@@ -228,9 +228,10 @@ struct reb_rotation reb_rotation_init_to_new_axes(struct reb_vec3d newz, struct 
     newx = reb_vec3d_add(newx, reb_vec3d_mul(newz, -dotprod)); // orthogonalize: newx = newx - (newx dot newz) newzhat
     struct reb_vec3d z = {.x=0.0, .y=0.0, .z=1.0};
     struct reb_rotation q1 = reb_rotation_init_from_to(newz, z);
-    struct reb_vec3d x = {.x=1.0, .y=0.0, .z=0.0};
     reb_vec3d_irotate(&newx, q1); // need to rotate newx to what it would be after the first rotation
-    struct reb_rotation q2 = reb_rotation_init_from_to(newx, x);
+    // newx now lies in the xy plane. The second rotation must be around the z axis (keeping newz on z).
+    // reb_rotation_init_from_to(newx, x) picks an arbitrary axis if newx is antiparallel to x.
+    struct reb_rotation q2 = reb_rotation_init_angle_axis(-atan2(newx.y, newx.x), z);
     return reb_rotation_mul(q2, q1);
 }
 
